@@ -405,6 +405,8 @@ def r6_components(program, rep):
     rep.guard("C03-R5", C03.r5_reconnect, program, rep)
     rep.guard(["C03-R3", "C03-R4"], C03.r3_growth, program, rep)
     rep.guard("C03-R3", C03.r3_copy, program, rep)
+    rep.guard("C03-R1", C03.r1_leaves, program, rep)
+    rep.guard("C03-R1", C03.r1_neighbour, program, rep)
     rep.note("R6 re-runs C10-R1, C04-R2, C04-R3, C04-R5, C03-R3/R4/R5 "
              "(reported under their own rule names): a tree-to-table, "
              "default-route, covering-range, front-end or repair defect "
